@@ -950,6 +950,78 @@ class Account:
             return self.peek()
         finally:
             self.x = 1
+
+    @icontract.require(lambda self: self.x >= 0)
+    @icontract.snapshot(lambda self: self.x, name="x")
+    @icontract.ensure(lambda self, OLD: self.x == OLD.x)
+    async def checked_wait_for(self, event):
+        await event.wait()
+        return "waited"
+
+
+@icontract.ensure(lambda result: result == "waited")
+async def wait_with_postcondition(event):
+    await event.wait()
+    return "waited"
+
+
+@icontract.require(lambda event: event is not None)
+async def wait_with_precondition(event):
+    await event.wait()
+    return "waited"
+
+
+async def slow_capture(event):
+    await event.wait()
+    return 1
+
+
+@icontract.snapshot(slow_capture, name="before")
+@icontract.ensure(lambda OLD, result: OLD.before == 1 and result == "waited")
+async def wait_in_capture(event):
+    return "waited"
+
+
+async def slow_condition(event):
+    await event.wait()
+    return True
+
+
+@icontract.require(slow_condition)
+@icontract.ensure(lambda result: result == "waited")
+async def wait_in_condition(event):
+    return "waited"
+
+
+FIRST_CALLS = {
+    "method-of-an-object-with-invariants": lambda event: Account().wait_for(event),
+    "method-with-contracts-of-an-object-with-invariants": lambda event: Account().checked_wait_for(event),
+    "function-with-a-postcondition": wait_with_postcondition,
+    "function-with-a-precondition": wait_with_precondition,
+    "function-suspended-in-its-capture": wait_in_capture,
+    "function-suspended-in-its-condition": wait_in_condition,
+}
+
+
+async def recursive_condition(n, event):
+    """A condition which uses the function it describes, after the other call has finished."""
+    if n > 0:
+        event.set()
+        await asyncio.sleep(0)
+        await asyncio.sleep(0)
+        return await countdown(n - 1, event) == n - 1
+    return True
+
+
+@icontract.require(recursive_condition)
+async def countdown(n, event):
+    return n
+
+
+SECOND_CALLS = {
+    "method-re-entering-its-object": lambda event: Account().transfer(event),
+    "function-re-entered-from-its-condition": lambda event: countdown(3, event),
+}
 '''
 
 
@@ -960,18 +1032,24 @@ def run_shared_context(w) -> None:
     loaded = prog.load_source(SHARED_CONTEXT_SOURCE, w.scratch())
     mod = loaded.module
 
-    async def alone():
-        return await mod.Account().transfer(asyncio.Event())
+    def alone(second_tag):
+        async def run():
+            return await mod.SECOND_CALLS[second_tag](asyncio.Event())
+        return run()
 
-    async def shared_context():
-        ctx = contextvars.copy_context()
-        loop = asyncio.get_running_loop()
-        event = asyncio.Event()
-        first = loop.create_task(mod.Account().wait_for(event), context=ctx)
-        await asyncio.sleep(0)
-        second = loop.create_task(mod.Account().transfer(event), context=ctx)
-        res = await asyncio.gather(first, second, return_exceptions=True)
-        return res[1]
+    def shared_context(first_tag, second_tag):
+        async def run():
+            ctx = contextvars.copy_context()
+            loop = asyncio.get_running_loop()
+            event = asyncio.Event()
+            first = loop.create_task(mod.FIRST_CALLS[first_tag](event), context=ctx)
+            await asyncio.sleep(0)
+            second = loop.create_task(mod.SECOND_CALLS[second_tag](event), context=ctx)
+            res = await asyncio.wait_for(asyncio.gather(first, second, return_exceptions=True), timeout=60)
+            if res[0] != "waited":
+                return "the first call gave {!r}".format(res[0])
+            return res[1]
+        return run()
 
     def verdict(coro):
         try:
@@ -1000,18 +1078,20 @@ def run_shared_context(w) -> None:
             if res != base_assign:
                 w.violation("C12/checks-disabled-in-flow-started-during-a-call", "attribute assignment from a {} started while a method of the object is "
                             "in flight gave {}, alone it gives {}".format(how, res, base_assign), {"shared_context": "assign-" + how})
-        base = verdict(alone())
-        for tag, make in (("two-tasks-sharing-one-context", shared_context),):
-            res = verdict(make())
-            if res.startswith("returned ") and "Error" in res:
-                res = "raised " + res.split("(")[0].split()[-1]
-            w.count("calls_judged")
-            w.count("calls_overlapping_with_another")
-            w.count("shared_context_schedules")
-            w.case(("shared-context", tag))
-            if res != base:
-                w.violation("C12/verdict-depends-on-the-end-of-a-call-sharing-the-context", "{}: the judged call gave {}, alone it gives {}".format(
-                    tag, res, base), {"shared_context": tag})
+        for second_tag in sorted(mod.SECOND_CALLS):
+            base = verdict(alone(second_tag))
+            for first_tag in sorted(mod.FIRST_CALLS):
+                tag = "two-tasks-sharing-one-context/{}/{}".format(first_tag, second_tag)
+                res = verdict(shared_context(first_tag, second_tag))
+                if res.startswith("returned ") and "Error" in res:
+                    res = "raised " + res.split("(")[0].split()[-1]
+                w.count("calls_judged")
+                w.count("calls_overlapping_with_another")
+                w.count("shared_context_schedules")
+                w.case(("shared-context", tag))
+                if res != base:
+                    w.violation("C12/verdict-depends-on-the-end-of-a-call-sharing-the-context", "{}: the judged call gave {}, alone it gives {}".format(
+                        tag, res, base), {"shared_context": tag})
     finally:
         loaded.unload()
 
